@@ -245,6 +245,14 @@ func (p *Program) lookupType(name string, pkg *types.Package) types.Type {
 			return types.NewPointer(t)
 		}
 		return nil
+	case strings.HasPrefix(name, "map["):
+		if i := strings.Index(name, "]"); i > 0 {
+			k, v := p.lookupType(name[4:i], pkg), p.lookupType(name[i+1:], pkg)
+			if k != nil && v != nil {
+				return types.NewMap(k, v)
+			}
+		}
+		return nil
 	case strings.HasPrefix(name, "[]"):
 		if t := p.lookupType(name[2:], pkg); t != nil {
 			return types.NewSlice(t)
